@@ -436,6 +436,71 @@ def analyse(ctx, replace=None, only=None):
         C07.run_rules(R, tsf, P)
         C07.schedule_rules(R, tsf)
         C07.has_tasks_rules(R, tsf, batch=False, P=P)
+    feed_rules(R, P, fns)
+
+
+def feed_rules(R, P, fns):
+    """NEVER-EARLY/feed: the scheduler thread (and the final release) hand a task over to the inner scheduler as `run now`
+    only when it was scheduled as such (time 0) or its time is not later than a clock value already fetched - NUM, every
+    state at each aws_task_scheduler_schedule_now call; schedule_future is given the task's own time."""
+    from sa.num import Num, Poly, Limit, entails
+    from sa.awslib import AwsHooks
+
+    class H(AwsHooks):
+        def call(self, num, st, e, args):
+            if e.get("callee") in ("aws_high_res_clock_get_ticks", "aws_sys_clock_get_ticks") and e["a"]:
+                tgt = RU.strip_addr(num.fn, e["a"][0])
+                k = num.key(tgt, st) if tgt is not None else None
+                if k:
+                    a = num.fresh(st, "now", None, (0, 2 ** 64 - 1))
+                    st.env[k] = Poly.atom(a)
+                    st.notes["clock"] = list(st.notes.get("clock", [])) + [a]
+                return Poly.const(0)
+            return AwsHooks.call(self, num, st, e, args)
+    n = 0
+    for name in ("s_thread_fn", "s_destroy_callback"):
+        f = fns.get(name)
+        if f is None:
+            continue
+        nows = f.calls("aws_task_scheduler_schedule_now")
+        futs = f.calls("aws_task_scheduler_schedule_future")
+        if not nows and not futs:
+            continue
+        num = Num(f, P, H(), max_paths=20000)
+        try:
+            sts = num.states_at({e.node["id"] for e in nows + futs})
+        except Limit as ex:
+            R.broken(str(ex))
+            continue
+
+        def ts_of(call, st):
+            tv = RU.uncast(f, RU.arg(f, call, 1))
+            for b in f.blocks.values():
+                for el in b.elems:
+                    for x in f.walk(el):
+                        if x["k"] == "member" and x["f"] == "timestamp" and x.get("rec") == "aws_task" and tv is not None and f.show(RU.uncast(f, x["a"][0])) == f.show(tv):
+                            return num.val(x, st.copy())
+            return None
+        for e in nows:
+            ok, cnt = True, 0
+            for st in sts.get(e.node["id"], []):
+                cnt += 1
+                ts = ts_of(e.node, st)
+                zero = ts is not None and entails(st, ts) and entails(st, -ts)
+                due = ts is not None and any(entails(st, ts - Poly.atom(a)) for a in st.notes.get("clock", []))
+                ok = ok and (zero or due)
+            n += 1
+            R.check(ok and cnt >= 1, "NEVER-EARLY", "%s:run-now-only-for-time-0-or-due" % name, where(f, e), "handed over as run-now only with time 0 or a time already reached (%d states)" % cnt,
+                    "%s hands a task to aws_task_scheduler_schedule_now although its time is neither 0 nor known to have been reached: a task scheduled far in the future (UINT64_MAX as `never`) runs at once" % name)
+        for e in futs:
+            ok, cnt = True, 0
+            for st in sts.get(e.node["id"], []):
+                cnt += 1
+                ts, given = ts_of(e.node, st), num.val(RU.arg(f, e.node, 2), st)
+                ok = ok and ts is not None and given is not None and entails(st, ts - given) and entails(st, given - ts)
+            n += 1
+            R.check(ok and cnt >= 1, "NEVER-EARLY", "%s:future-at-its-own-time" % name, where(f, e), "handed over with the task's own time (%d states)" % cnt)
+    R.require(n >= 4, "only %d hand-over calls to the inner scheduler found in the thread function / the final release" % n)
 
 
 def launch_state(f):
